@@ -55,6 +55,23 @@ Definition same_set (a b : list string) : bool :=
 Definition order_ok (h : hier) (order : list string) : bool :=
   supers_before h [] order && nodupb order && same_set order (map fst h).
 
+(* acyclicity, decidable: a rank given as an association list -- every direct superclass that is a user class has a
+   smaller rank, no rank exceeds the number of classes; and the canonical candidate, the depth of a class (the longest
+   chain of user superclasses below it, computed with fuel) *)
+Definition rank_of (r : list (string * nat)) (c : string) : nat := match alookup r c with Some n => n | None => 0 end.
+Definition acyclic_by (r : list (string * nat)) (h : hier) : bool :=
+  forallb (fun kv => forallb (fun s => negb (mem s (map fst h)) || Nat.ltb (rank_of r s) (rank_of r (fst kv))) (snd kv)
+                     && Nat.leb (rank_of r (fst kv)) (List.length h)) h.
+Fixpoint depth (fuel : nat) (h : hier) (c : string) : nat :=
+  match fuel with
+  | O => 0
+  | S f => match alookup h c with
+           | None => 0
+           | Some sups => fold_right Nat.max 0 (map (fun s => if mem s (map fst h) then S (depth f h s) else 0) sups)
+           end
+  end.
+Definition depth_rank (h : hier) : list (string * nat) := map (fun kv => (fst kv, depth (List.length h) h (fst kv))) h.
+
 (* the enumerated block (the harness runs exactly these hierarchies on every run): three names a < m < z in every role
    of child(parent) + unrelated, of a chain of three, and four names in every role of a diamond *)
 Fixpoint perms {A} (l : list A) : list (list A) :=
